@@ -73,6 +73,8 @@ let show_out (st : state) (o : out) =
       | Some (a6, pd) -> (if isreq then "rep:" else "adv:") ^ show_addr a6 ^ ":" ^ show_item pd in
     Printf.sprintf "%s %s ctx6=%s ctxpd=%s" (if isreq then "iv" else "is") rs (show_addr c6) (show_item cd)
   | ORel ir -> if ir then "ir" else "it"
+  | ORel6 -> "il"
+  | ORestart -> "restart"
   | OIa -> "ia"
 
 (* plugins/dhcp6/local lease tables; DUID = 00030001 + MAC *)
@@ -127,6 +129,7 @@ let parse_op toks : op option =
   | ["IS"; sid; vrf; s6; spd; o6; od] -> Some (IS (false, nd sid, nd vrf, o s6, opt_tok item_of_tok spd, o o6, o od))
   | ["IV"; sid; vrf; s6; spd; o6; od] -> Some (IS (true, nd sid, nd vrf, o s6, opt_tok item_of_tok spd, o o6, o od))
   | ["IR"; sid] -> Some (IR (nd sid))
+  | ["IL"; sid] -> Some (IL (nd sid))
   | ["IT"; sid] -> Some (IT (nd sid))
   | ["IA"; sid] -> Some (IA (nd sid))
   | _ -> None
@@ -138,13 +141,16 @@ let split_segs_ref line = Str.split (Str.regexp_string " ; ") line
 
 (* ------------------------------------------------------------------ stage B glue (internal/ipoe component)
    A component-level event is mapped to the model ops it amounts to, following the gate logic of
-   handleDiscover / handleRequest / handleAAAResponse / onSessionCreated / handleRelease /
-   handleSubscriberTerminate.  Declared subscriber k uses model session k+100*incarnation. *)
+   handleDiscover / handleRequest / handleDHCPv6Solicit / handleDHCPv6Request / handleAAAResponse /
+   onSessionCreated / handleRelease / handleDHCPv6Release / handleSubscriberTerminate / restoreSessions.
+   Declared subscriber k uses model session k+100*incarnation. *)
 type gate = { mutable exists : bool; mutable approved : bool; mutable inflight : bool; mutable created : bool;
-              mutable pend_d : bool; mutable pend_q : bool; mutable inc : int; mutable queued : bool;
-              mutable args : (n * n option * n option); mutable rq : n option }
+              mutable pend_d : bool; mutable pend_q : bool; mutable pend_s : bool; mutable pend_v : bool;
+              mutable inc : int; mutable queued : bool; mutable ll : bool; mutable ll_img : bool;
+              mutable args : (n * n option * n option * n option * (n * n) option); mutable rq : n option }
 let new_gate () = { exists = false; approved = false; inflight = false; created = false; pend_d = false;
-                    pend_q = false; inc = -1; queued = false; args = (N0, None, None); rq = None }
+                    pend_q = false; pend_s = false; pend_v = false; inc = -1; queued = false; ll = false; ll_img = false;
+                    args = (N0, None, None, None, None); rq = None }
 
 let parse_cfg_b toks =
   let pools = ref [] and groups = ref [] and sess = ref [] and queue = ref false in
@@ -153,6 +159,12 @@ let parse_cfg_b toks =
     | "P4" :: key :: prof :: vrf :: lo :: hi :: ex :: r ->
       let excl = if ex = "-" then [] else List.map nd (String.split_on_char ',' ex) in
       pools := new_pool F4 (nd key) (nd prof) (nd vrf) (GRange (nd lo, nd hi, excl)) :: !pools; go r
+    | "P6" :: key :: prof :: vrf :: lo :: hi :: r ->
+      pools := new_pool F6 (nd key) (nd prof) (nd vrf) (GRange (nd lo, nd hi, [])) :: !pools; go r
+    | "PD" :: key :: prof :: vrf :: base :: nb :: pl :: r ->
+      let nbi = int_of_string nb and pli = int_of_string pl in
+      pools := new_pool FD (nd key) (nd prof) (nd vrf)
+          (GPfx (nd base, n_of_int pli, pow2 (pli - nbi), n_of_int (128 - pli))) :: !pools; go r
     | "G" :: gid :: p4 :: p6 :: r -> groups := (gid, (opt_tok nd p4, opt_tok nd p6)) :: !groups; go r
     | "S" :: sid :: _ :: gid :: mac :: r -> sess := (sid, gid, mac) :: !sess; go r
     | [] -> ()
@@ -165,6 +177,11 @@ let parse_cfg_b toks =
 
 let find_model_sess (st : state) sid = List.find_opt (fun s -> s.s_id = sid) st.st_sess
 
+let store_snap (st : state) =
+  let ims = List.map (fun (sid, im) ->
+      sid_name sid ^ ":" ^ show_addr im.s_b4 ^ "/" ^ show_addr im.s_b6 ^ "/" ^ show_item im.s_bd) st.st_prov.store in
+  "S[" ^ String.concat "," (sorted ims) ^ "]"
+
 (* all candidate paths of a list of (model op, reply kind): returns (state, reply tokens) list *)
 let rec run_ops variant (st : state) ops : (state * string list) list =
   match ops with
@@ -174,6 +191,9 @@ let rec run_ops variant (st : state) ops : (state * string list) list =
         let tok = match ot with
           | OId (_, IdTold x, _) -> [kind ^ ":" ^ dn x]
           | OId (_, IdPanic, _) -> ["panic"]
+          | OIs (isreq, Some (a6, pd), _, _, _) ->
+            [(if isreq then "rep6:" else "adv6:") ^ show_addr a6 ^ ":" ^ show_item pd]
+          | ORel6 -> if kind = "mute" then [] else ["rep6:nil:nil"]
           | _ -> [] in
         List.map (fun (s2, toks) -> (s2, tok @ toks)) (run_ops variant st' rest)) (step variant st o)
 
@@ -185,29 +205,46 @@ let run_case_b variant line isegs =
   let gate k = match Hashtbl.find_opt gates k with Some g -> g | None -> let g = new_gate () in Hashtbl.add gates k g; g in
   let vq : string list ref = ref [] in
   let st = ref st0 in
-  let snapb s = snap s ^ " | " ^ psnap s in
+  let snapb s = snap s ^ " | " ^ psnap s ^ " | " ^ psnap6 s ^ " | " ^ store_snap s in
   let res = ref ["init | " ^ snapb st0] in
   let idx = ref 1 in
   let cur_sid k g = n_of_int (int_of_string k + 100 * (max g.inc 0)) in
-  let idop2 k g isreq bind = let (vrf, s4, o4) = g.args in ID (isreq, bind, (if isreq then g.rq else None), cur_sid k g, vrf, s4, o4) in
+  let cur_sess s k g = find_model_sess s (cur_sid k g) in
+  let idop2 k g isreq bind = let (vrf, s4, o4, _, _) = g.args in
+    ID (isreq, bind, (if isreq then g.rq else None), cur_sid k g, vrf, s4, o4) in
   let idop k g isreq = idop2 k g isreq isreq in
+  let isop k g isreq = let (vrf, _, _, s6, spd) = g.args in IS (isreq, cur_sid k g, vrf, s6, spd, None, None) in
+  let v6on k g = match cur_sess !st k g with Some s -> s.s_prof6 <> None | None -> false in
   let fresh g = g.exists <- true; g.inc <- g.inc + 1; g.approved <- false; g.inflight <- false;
-    g.created <- false; g.pend_d <- false; g.pend_q <- false; g.queued <- false; g.args <- (N0, None, None); g.rq <- None in
+    g.created <- false; g.pend_d <- false; g.pend_q <- false; g.pend_s <- false; g.pend_v <- false;
+    g.queued <- false; g.ll <- false; g.ll_img <- false; g.args <- (N0, None, None, None, None); g.rq <- None in
+  (* pending packets replayed after the AAA answer / the session creation, in the order the code replays them *)
+  let pending k g =
+    let pd = g.pend_d and pq = g.pend_q and ps = g.pend_s and pv = g.pend_v in
+    g.pend_d <- false; g.pend_q <- false; g.pend_s <- false; g.pend_v <- false;
+    (if pd then [(idop k g false, "offer")] else []) @ (if pq then [(idop2 k g true (not variant.d6), "ack")] else [])
+    @ (if ps then [(isop k g false, "")] else []) @ (if pv then [(isop k g true, "")] else []) in
+  let show_rec s' k g =
+    if not g.exists then "gone" else
+      match cur_sess s' k g with
+      | Some s -> show_addr s.s_b4 ^ "/" ^ show_addr s.s_b6 ^ "/" ^ show_item s.s_bd
+      | None -> "nil/nil/nil" in
   List.iter (fun otxt ->
     let f = tokens otxt in
     if f <> [] then begin
-      (* returns (tag, model ops, aaa count, show_rec, subscriber) or skip *)
       let known = match f with _ :: k :: _ when List.hd f <> "BC" -> List.mem k declared | _ -> true in
+      (* (tag, model ops, aaa count (-1: no aaa/rec fields; -2: restart), subscriber) *)
       let plan : (string * (op * string) list * int * (string * gate) option) option =
         if not known then None else
         match f with
+        | ["BZ"] ->
+          vq := [];
+          Some ("bz", [(Restart, "")], -2, None)
         | "BC" :: rest ->
           let q = if rest = ["rev"] then List.rev !vq else !vq in
           vq := [];
           let ops = List.concat_map (fun k -> let g = gate k in
-              g.queued <- false; g.created <- true;
-              let pd = g.pend_d and pq = g.pend_q in g.pend_d <- false; g.pend_q <- false;
-              (if pd then [(idop k g false, "offer")] else []) @ (if pq then [(idop2 k g true (not variant.d6), "ack")] else [])) q in
+              g.queued <- false; g.created <- true; pending k g) q in
           Some ("bc", ops, -1, None)
         | ["BD"; k] ->
           let g = gate k in
@@ -221,17 +258,38 @@ let run_case_b variant line isegs =
           if not g.exists then fresh g;
           g.pend_q <- true;
           (* the REQUEST names the address the client was last told (option 50) *)
-          g.rq <- (match find_model_sess !st (cur_sid k g) with Some s -> s.s_told | None -> None);
+          g.rq <- (match cur_sess !st k g with Some s -> s.s_told | None -> None);
           if g.approved then Some ("bq", [(idop k g true, "ack")], 0, Some (k, g))
           else if g.inflight then Some ("bq", [], 0, Some (k, g))
           else (g.inflight <- true; Some ("bq", [], 1, Some (k, g)))
-        | "BA" :: k :: vrf :: s4 :: o4 :: [] ->
+        | ["BS"; k] ->
+          let g = gate k in
+          let fresh_inc = if g.exists then g.inc else g.inc + 1 in
+          let on = (match find_model_sess !st (n_of_int (int_of_string k + 100 * (max fresh_inc 0))) with
+              | Some s -> s.s_prof6 <> None | None -> false) in
+          if not on then Some ("bs", [], 0, Some (k, g)) else begin
+            if not g.exists then fresh g;
+            g.pend_s <- true; g.ll <- true;   (* the session learns the client's link-local address *)
+            if g.approved && g.created then Some ("bs", [(isop k g false, "")], 0, Some (k, g))
+            else if g.approved || g.inflight then Some ("bs", [], 0, Some (k, g))
+            else (g.inflight <- true; Some ("bs", [], 1, Some (k, g)))
+          end
+        | [("BV" | "BW") as t; k] ->
+          let g = gate k in
+          let tag = String.lowercase_ascii t in
+          if not g.exists || not (v6on k g) then Some (tag, [], 0, Some (k, g)) else begin
+            g.pend_v <- true; g.ll <- true;
+            if g.approved && g.created then Some (tag, [(isop k g true, "")], 0, Some (k, g))
+            else Some (tag, [], 0, Some (k, g))
+          end
+        | "BA" :: k :: vrf :: s4 :: o4 :: rest ->
           let g = gate k in
           if not (g.exists && g.inflight) then None else begin
-            g.approved <- true; g.inflight <- false; g.args <- (nd vrf, opt_tok nd s4, opt_tok nd o4);
-            let pd = g.pend_d and pq = g.pend_q in g.pend_d <- false; g.pend_q <- false;
+            let (s6, spd) = match rest with
+              | [a; b] -> (opt_tok nd a, opt_tok item_of_tok b) | _ -> (None, None) in
+            g.approved <- true; g.inflight <- false; g.args <- (nd vrf, opt_tok nd s4, opt_tok nd o4, s6, spd);
             if not g.created && not g.queued then (if queue then (g.queued <- true; vq := !vq @ [k]) else g.created <- true);
-            Some ("ba", (if pd then [(idop k g false, "offer")] else []) @ (if pq then [(idop2 k g true (not variant.d6), "ack")] else []), 0, Some (k, g))
+            Some ("ba", pending k g, 0, Some (k, g))
           end
         | ["BJ"; k] ->
           let g = gate k in
@@ -239,11 +297,25 @@ let run_case_b variant line isegs =
         | ["BR"; k; ci] ->
           let g = gate k in
           if not g.exists then Some ("br", [], 0, Some (k, g)) else begin
-            let b4 = match find_model_sess !st (cur_sid k g) with Some s -> s.s_b4 | None -> None in
+            let ms = cur_sess !st k g in
+            let b4 = match ms with Some s -> s.s_b4 | None -> None in
             let ciaddr = if ci = "self" then (match b4 with Some a -> a | None -> N0) else nd ci in
             match b4 with
             | Some a when a <> ciaddr -> Some ("br", [], 0, Some (k, g))
-            | _ -> let o = IR (cur_sid k g) in g.exists <- false; Some ("br", [(o, "")], 0, Some (k, g))
+            | _ ->
+              let stays = match ms with Some s -> v6bound s | None -> false in
+              let o = IR (cur_sid k g) in
+              if not stays then g.exists <- false;
+              Some ("br", [(o, "")], 0, Some (k, g))
+          end
+        | ["BL"; k] ->
+          let g = gate k in
+          if not g.exists then Some ("bl", [], 0, Some (k, g)) else begin
+            let stays = match cur_sess !st k g with Some s -> s.s_b4 <> None | None -> false in
+            let o = IL (cur_sid k g) in
+            if not stays then g.exists <- false;
+            (* without a known client link-local address (restored session) the Reply cannot be sent *)
+            Some ("bl", [(o, if g.ll then "" else "mute")], 0, Some (k, g))
           end
         | ["BT"; k] ->
           let g = gate k in
@@ -253,14 +325,24 @@ let run_case_b variant line isegs =
       (match plan with
        | None -> res := ("skip | " ^ snapb !st) :: !res
        | Some (tag, ops, aaa, sub) ->
+         let restarted s' =
+           (* after a restart exactly the sessions with an image exist, approved and created *)
+           List.iter (fun k -> let g = gate k in
+               let has = g.inc >= 0 && List.exists (fun (sid, _) -> sid = cur_sid k g) s'.st_prov.store in
+               g.exists <- has; g.approved <- has; g.created <- has; g.inflight <- false; g.queued <- false;
+               g.ll <- g.ll_img && has;   (* ClientLinkLocal as of the last checkpoint *)
+               g.pend_d <- false; g.pend_q <- false; g.pend_s <- false; g.pend_v <- false; g.rq <- None) declared in
          let render (s', toks) =
-           let replies = String.concat "," (toks @ ["."]) in
-           let head = if aaa < 0 then tag ^ " " ^ replies else
-               let recs = match sub with
-                 | Some (k, g) when g.exists ->
-                   (match find_model_sess s' (cur_sid k g) with Some s -> show_addr s.s_b4 | None -> "nil")
-                 | _ -> "gone" in
-               Printf.sprintf "%s %s aaa=%d rec=%s" tag replies aaa recs in
+           let replies = String.concat "," (sorted toks @ ["."]) in
+           let head =
+             if aaa = -2 then begin
+               restarted s';
+               let ks = List.sort (fun a b -> compare (int_of_string a) (int_of_string b)) declared in
+               tag ^ " " ^ String.concat "," (List.map (fun k -> "s" ^ k ^ "=" ^ show_rec s' k (gate k)) ks)
+             end
+             else if aaa < 0 then tag ^ " " ^ replies
+             else Printf.sprintf "%s %s aaa=%d rec=%s" tag replies aaa
+                 (match sub with Some (k, g) -> show_rec s' k g | None -> "gone") in
            head ^ " | " ^ snapb s' in
          let cands = run_ops variant !st ops in
          let want = if !idx < Array.length isegs then Some isegs.(!idx) else None in
@@ -270,7 +352,14 @@ let run_case_b variant line isegs =
                | None -> (match List.find_opt (fun c -> snap_part (render c) = snap_part w) cands with
                    | Some c -> c | None -> List.hd cands))
            | None -> List.hd cands in
-         res := render pick :: !res; st := fst pick);
+         let before = !st in
+         res := render pick :: !res; st := fst pick;
+         (* a checkpoint of a session persists what it knew at that moment (client link-local address) *)
+         List.iter (fun k -> let g = gate k in
+             if g.inc >= 0 then begin
+               let im s = List.assoc_opt (cur_sid k g) s.st_prov.store in
+               if im !st <> im before && im !st <> None then g.ll_img <- g.ll
+             end) declared);
       incr idx
     end) (List.tl parts);
   String.concat " ; " (List.rev !res)
@@ -280,15 +369,15 @@ let split_segs line = Str.split (Str.regexp_string " ; ") line
 let () =
   let cases = read_lines Sys.argv.(1) in
   let impls = if Array.length Sys.argv > 2 && Sys.argv.(2) <> "-" then Some (read_lines Sys.argv.(2)) else None in
-  (* variant names: repaired | defective | v<d1><d2><d3><d4><d5><d6><d7> with 0/1 flags *)
+  (* variant names: repaired | defective | v<d1>..<d8> with 0/1 flags *)
   let variant =
     if Array.length Sys.argv > 3 then
       (match Sys.argv.(3) with
        | "defective" -> defective
        | "repaired" -> repaired
-       | v when String.length v = 8 && v.[0] = 'v' ->
+       | v when String.length v = 9 && v.[0] = 'v' ->
          { d1 = (v.[1] = '1'); d2 = (v.[2] = '1'); d3 = (v.[3] = '1'); d4 = (v.[4] = '1'); d5 = (v.[5] = '1');
-           d6 = (v.[6] = '1'); d7 = (v.[7] = '1') }
+           d6 = (v.[6] = '1'); d7 = (v.[7] = '1'); d8 = (v.[8] = '1') }
        | _ -> repaired)
     else repaired in
   List.iteri (fun idx line ->
